@@ -176,7 +176,7 @@ pub fn run(path: &str) -> i32 {
                 Ok(e) => enc_str(e, &uni),
                 Err(_) => "PANIC".into(),
             };
-            println!("  {} ({}) map_keycode({:?}, {}, {}) → {}", LAYOUT_NAMES[li], FORM_NAMES[form], key, mods_str(mods), mode_str(MODES[mode]), last);
+            println!("  {} ({}) map_keycode({:?}, {}, {}) → {}", layout_name(li), FORM_NAMES[form], key, mods_str(mods), mode_str(MODES[mode]), last);
             last
         }
         "events" => {
